@@ -857,7 +857,7 @@ def outcome_class(case, o):
     return "v%d-%s-%s" % (o.parse["version"], k, a)
 
 
-def run_property(prop, monitor, crate_rule, n_quick=700, n_thorough=3000, weights=None, extra_assumptions=()):
+def run_property(prop, monitor, crate_rule, n_quick=700, n_thorough=1500, weights=None, extra_assumptions=()):
     c = vplib.Check(prop)
     c.run_gate()
     n = n_quick if c.tier == "quick" else n_thorough
